@@ -751,6 +751,162 @@ fn run_history(out: &mut Out, rng: &mut Rng, work: &str, hist: usize, big: bool)
 	st
 }
 
+/// C08 / C15 / C02 at chain level: a chain long enough for `Chain::compact` to really run
+/// (head >= tail + horizon + 60), with spends all along; observations and roots before and
+/// after compaction, after a restart, and through a reorganisation that stays inside the horizon,
+/// against a twin node that never compacts.
+fn run_long(out: &mut Out, rng: &mut Rng, work: &str) -> BTreeMap<String, u64> {
+	out.raw("chain reset");
+	let mut stats: BTreeMap<String, u64> = BTreeMap::new();
+	let mut kit = Kit::new(&format!("{}/builder_long", work));
+	let n_trunk = 86u64;
+	let mut tip = 0usize;
+	let mut trunk = vec![0usize];
+	let mut spendable: Vec<(usize, u64)> = vec![(0, 0)];
+	let mut spent_plain: Vec<usize> = vec![];
+	for h in 1..=n_trunk {
+		let mut specs = vec![];
+		let nsp = if h >= 4 { rng.below(3) } else { 0 };
+		for _ in 0..nsp {
+			if let Some(pos) = spendable.iter().position(|(o, c)| !kit.outs[*o].coinbase || h >= *c + MATURITY) {
+				let (o, _) = spendable.remove(pos);
+				let v = kit.outs[o].value;
+				if v < 10 {
+					continue;
+				}
+				if !kit.outs[o].coinbase {
+					spent_plain.push(o);
+				}
+				if rng.chance(1, 3) {
+					specs.push(TxSpec { inputs: vec![o], outputs: vec![(v - 1, None)], kernel: KSpec::Plain(1) });
+				} else {
+					let a = rng.range(1, v / 2);
+					specs.push(TxSpec { inputs: vec![o], outputs: vec![(a, None), (v - a - 2, None)], kernel: KSpec::Plain(2) });
+				}
+			}
+		}
+		let before = kit.outs.len();
+		match kit.new_block(tip, 2, &specs) {
+			Ok(id) => {
+				tip = id;
+				trunk.push(id);
+				for o in before..kit.outs.len() {
+					spendable.push((o, h));
+				}
+			}
+			Err(e) => {
+				*stats.entry(format!("generator:{}", e)).or_insert(0) += 1;
+			}
+		}
+	}
+	// a competing branch of depth 3 forking 4 blocks below the tip (inside the horizon), heavier
+	let n = trunk.len() - 1;
+	let mut fork = vec![];
+	let mut t = trunk[n - 4];
+	for d in 0..3 {
+		match kit.new_block(t, if d == 2 { 30 } else { 2 }, &[]) {
+			Ok(id) => {
+				fork.push(id);
+				t = id;
+			}
+			Err(_) => break,
+		}
+	}
+	for l in kit.out_lines(0) {
+		out.raw(&l);
+	}
+	for id in 0..kit.blks.len() {
+		out.raw(&kit.blk_line(id));
+	}
+	let mut subj = Subject::new(&format!("{}/long_s", work), &kit.genesis);
+	let twin = Subject::new(&format!("{}/long_t", work), &kit.genesis);
+	out.raw("chain new s0");
+	out.raw("chain new t0");
+	for i in &trunk[1..] {
+		let r = subj.deliver_block(&kit.blks[*i].block);
+		out.line(&format!("chain deliver s0 b{}", i), &r);
+		let r = twin.deliver_block(&kit.blks[*i].block);
+		out.line(&format!("chain deliver t0 b{}", i), &r);
+	}
+	let check_pair = |out: &mut Out, subj: &Subject, twin: &Subject, stage: &str| {
+		let (o, r) = (subj.obs(&kit), subj.roots());
+		let (to, tr) = (twin.obs(&kit), twin.roots());
+		out.line("chain obs s0", &o);
+		if o != to || r != tr {
+			out.raw(&format!(
+				"#ORACLE-FAIL C08 compacted node differs from the never-compacted twin at stage {}: s=[{} {}] t=[{} {}]",
+				stage, o, r, to, tr
+			));
+		}
+	};
+	check_pair(out, &subj, &twin, "before-compaction");
+	let roots_before = subj.roots();
+	let v0 = subj.c().validate(false).is_ok();
+	// compaction
+	let tail_before = subj.c().tail().map(|t| t.height).unwrap_or(0);
+	let r = match subj.c().compact() {
+		Ok(_) => "ok".to_string(),
+		Err(e) => format!("err:{}", error_class(&e)),
+	};
+	out.line("chain compact s0", &r);
+	let tail_after = subj.c().tail().map(|t| t.height).unwrap_or(0);
+	*stats.entry("long:compaction-moved-tail".into()).or_insert(0) += (tail_after > tail_before) as u64;
+	if tail_after <= tail_before {
+		out.raw(&format!("#ORACLE-FAIL C08 harness: compaction did not run (tail {} -> {})", tail_before, tail_after));
+	}
+	check_pair(out, &subj, &twin, "after-compaction");
+	if subj.roots() != roots_before {
+		out.raw("#ORACLE-FAIL C08 compaction changed the state roots");
+	}
+	let v1 = subj.c().validate(false);
+	out.line("chain validate s0", &match &v1 { Ok(_) => "ok".to_string(), Err(e) => format!("err:{}", error_class(e)) });
+	if v0 && v1.is_err() {
+		out.raw("#ORACLE-FAIL C08 full validation fails after compaction");
+	}
+	// spent outputs must stay spent, Merkle proofs of unspent outputs still verify
+	for o in spent_plain.iter().take(40) {
+		if let Ok(Some(_)) = subj.c().get_unspent(kit.outs[*o].commit) {
+			out.raw(&format!("#ORACLE-FAIL C02 spent output o{} reappeared after compaction", o));
+		}
+	}
+	let mut proofs = 0;
+	for oid in subj.utxo(&kit).iter().take(60) {
+		let c = kit.outs[*oid].commit;
+		match subj.c().get_merkle_proof_for_pos(c) {
+			Ok(_) => proofs += 1,
+			Err(e) => out.raw(&format!("#ORACLE-FAIL C08 no Merkle proof for unspent o{} after compaction: {}", oid, error_class(&e))),
+		}
+	}
+	*stats.entry("long:merkle-proofs-after-compaction".into()).or_insert(0) += proofs;
+	// restart (bitmap accumulator and output_pos index are rebuilt on open)
+	let r = match subj.reopen() {
+		Ok(_) => "ok".to_string(),
+		Err(e) => format!("err:{}", e),
+	};
+	out.line("chain reopen s0", &r);
+	check_pair(out, &subj, &twin, "after-reopen");
+	if subj.roots() != roots_before {
+		out.raw("#ORACLE-FAIL C15 state roots (incl. the bitmap root) differ after restart");
+	}
+	// reorganisation inside the horizon, on both
+	for i in &fork {
+		let r = subj.deliver_block(&kit.blks[*i].block);
+		out.line(&format!("chain deliver s0 b{}", i), &r);
+		let r2 = twin.deliver_block(&kit.blks[*i].block);
+		out.line(&format!("chain deliver t0 b{}", i), &r2);
+		if r != r2 {
+			out.raw(&format!("#ORACLE-FAIL C08 reorg inside the horizon behaves differently after compaction: b{} {} vs {}", i, r, r2));
+		}
+		check_pair(out, &subj, &twin, "reorg-inside-horizon");
+	}
+	let v2 = subj.c().validate(false);
+	out.line("chain validate s0", &match &v2 { Ok(_) => "ok".to_string(), Err(e) => format!("err:{}", error_class(e)) });
+	*stats.entry("long:blocks".into()).or_insert(0) += kit.blks.len() as u64;
+	*stats.entry("long:outputs".into()).or_insert(0) += kit.outs.len() as u64;
+	*stats.entry("long:spent-plain".into()).or_insert(0) += spent_plain.len() as u64;
+	stats
+}
+
 fn main() {
 	quiet_panics();
 	setup_globals();
@@ -761,6 +917,14 @@ fn main() {
 	let n: usize = args.get(1).and_then(|s| s.parse().ok()).unwrap_or(if thorough { 10 } else { 2 });
 	let mut out = Out::stdout();
 	let mut total: BTreeMap<String, u64> = BTreeMap::new();
+	if args.get(1).map(|s| s == "long").unwrap_or(false) {
+		let st = run_long(&mut out, &mut rng, &work);
+		for (k, v) in st {
+			out.raw(&format!("#STAT {}={}", k, v));
+		}
+		out.flush();
+		return;
+	}
 	for h in 0..n {
 		let st = run_history(&mut out, &mut rng, &work, h, thorough);
 		for (k, v) in st {
